@@ -136,6 +136,9 @@ var AttrKinds = []struct {
 		return CondAttr{Cond: g.ID("b"), Then: []Attr{ClassExprAttr{Items: []ClassItem{{Kind: "dyn", ID: g.ID("k")}}}}, HasElse: true,
 			Else: []Attr{ClassExprAttr{Items: []ClassItem{{Kind: "const", Name: "k0"}, {Kind: "dyn", ID: g.ID("k")}}}}}
 	}},
+	{"cond-script", func(g *Gen, i int) Attr {
+		return CondAttr{Cond: g.ID("b"), Then: []Attr{ScriptAttr{Name: []string{"onclick", "onmouseover", "onfocus"}[i%3], ID: g.ID("s")}}}
+	}},
 	{"cond-class-css", func(g *Gen, i int) Attr {
 		return CondAttr{Cond: g.ID("b"), Then: []Attr{ClassExprAttr{Items: []ClassItem{{Kind: "css"}, {Kind: "kv", Name: "k1", Cond: g.ID("b")}}}}}
 	}},
